@@ -14,6 +14,6 @@ for mc in "WakeImpl WakeImpl.cfg" "YieldImpl YieldImpl.cfg" "ActivityImplMC Acti
   "LatchImplMC LatchImpl_1.cfg" "BarrierImpl BarrierImpl_3.cfg" "BulkImpl BulkImpl.cfg" "IndexQueueImpl IndexQueueImpl_ot.cfg" "JoinImpl JoinImpl.cfg" \
   "StopStateImpl StopStateImpl.cfg" "DequeImplMC DequeImpl.cfg" "PuSuspendImpl PuSuspendImpl.cfg" "MpiPollImpl MpiPollImpl.cfg" "MpiWaitImpl MpiWaitImpl.cfg" \
   "IdleStealImpl IdleStealImpl_big.cfg" "ProducerSlotImpl ProducerSlotImpl.cfg" "RwRequestImpl RwRequestImpl.cfg" "MpiModeImpl MpiModeImpl.cfg" \
-  "RecursiveMutexImpl RecursiveMutexImpl.cfg" "SlidingSemImplMC SlidingSemImpl.cfg" "OnceImpl OnceImpl.cfg"; do
+  "RecursiveMutexImpl RecursiveMutexImpl.cfg" "SlidingSemImplMC SlidingSemImpl.cfg" "OnceImpl OnceImpl.cfg" "SyncWaitImpl SyncWaitImpl.cfg"; do
   set -- $mc; one $1 $2
 done
